@@ -117,7 +117,7 @@ theorem stepXO_frame (sch : Schema) (props : Nat → Extra) (s : Fail.St) (op : 
     OutFr (mkW sch inj props { s with n := 0, log := [] } 0 0 []) (stepXO sch props s op inj) := by
   cases op with
   | setattr c id col v => exact run_frameX noCall noCall_frame _ _ _ _ _ _ (mkW sch inj props _ c id _)
-  | set c id kw ex => exact run_frameX noCall noCall_frame _ _ _ _ _ _ (mkW sch inj _ _ c id _)
+  | set c id kw ex => exact run_frameX propCall propCall_frame _ _ _ _ _ _ (mkW sch inj _ _ c id _)
   | sync c id => trivial
   | create c m kw ex => exact PyCreate.createF_frame _ _ sch inj props _ c _ none kw
   | createChild c pkw ckw => trivial
